@@ -251,8 +251,13 @@ def rule_no_data_templates(ctx, rid="R3.6"):
     for f in sorted(reach, key=lambda x: x.qual):
         if f.mod.name in ("cli", "_reflect"):
             continue
+        n_sites = 0
         for n in walk_body(f):
             tmpl = None
+            if isinstance(n, ast.JoinedStr):
+                n_sites += 1
+                r.ok(site(f, n), "f-string: data only ever sits in value positions")
+                continue
             if isinstance(n, ast.BinOp) and isinstance(n.op, ast.Mod):
                 stringy = isinstance(n.right, ast.Tuple) or isinstance(n.left, (ast.Constant, ast.JoinedStr)) and isinstance(getattr(n.left, "value", ""), str) \
                     or (isinstance(n.left, ast.Name) and any(isinstance(x, ast.Assign) and any(isinstance(t, ast.Name) and t.id == n.left.id for t in x.targets)
@@ -266,12 +271,15 @@ def rule_no_data_templates(ctx, rid="R3.6"):
                     tmpl = n.func.value
             if tmpl is None:
                 continue
+            n_sites += 1
             if _template_constant(f, tmpl):
                 r.ok(site(f, n), "template is a literal: %s" % norm(tmpl)[:40])
             else:
                 r.fail("%s|data-in-template|%s" % (f.qual, norm(tmpl)[:40]), site(f, n),
                        "`%s` is used as a format template but is assembled from data: a '%%' (or '{') in a member name or value raises "
                        "ValueError/TypeError instead of producing the message" % norm(tmpl)[:50])
+        if not n_sites:
+            r.ok(site(f), "scanned: no %% / str.format / f-string site")
     return r
 
 
